@@ -5,6 +5,7 @@ import (
 	"go/ast"
 	"go/token"
 	"go/types"
+	"golang.org/x/tools/go/packages"
 	"sort"
 	"strings"
 
@@ -210,4 +211,100 @@ func flavourless(name string) string {
 		}
 	}
 	return name
+}
+
+// HOMONYM-CALLED: a lift that is named after a library function calls it.
+func ruleHomonymCalled() check.Rule {
+	return check.Rule{
+		Name: "HOMONYM-CALLED",
+		Doc:  "for every plugin package and every library package L that at least one of its exported functions lifts under its own name (F calls L.F): every exported function G of the plugin for which L.G exists as a function reaches a call of L.G — in its own body, or through the exported or unexported functions of the plugin it delegates to. A lift re-implemented on top of a sibling (`Parse` through `ParseInLocation(layout, time.UTC)`) no longer returns what the function it is named after returns",
+		Run: func(c *check.Ctx) {
+			m := c.M
+			n := 0
+			for _, p := range m.Pkgs {
+				if !c.ArmedPkg(p.PkgPath) {
+					continue
+				}
+				info := p.TypesInfo
+				var fds []*ast.FuncDecl
+				for _, f := range p.Syntax {
+					if strings.HasSuffix(c.Prog.Fset.Position(f.Pos()).Filename, "_test.go") {
+						continue
+					}
+					for _, d := range f.Decls {
+						if fd, ok := d.(*ast.FuncDecl); ok && fd.Body != nil && fd.Recv == nil && !check.IsControlName(fd.Name.Name) {
+							fds = append(fds, fd)
+						}
+					}
+				}
+				// library packages lifted under their own names
+				lifts := map[*types.Package]int{}
+				for _, fd := range fds {
+					if !fd.Name.IsExported() {
+						continue
+					}
+					seen := map[*types.Package]bool{}
+					ast.Inspect(fd.Body, func(x ast.Node) bool {
+						if call, ok := x.(*ast.CallExpr); ok {
+							if cl := model.Callee(info, call); cl != nil && cl.Pkg() != nil && cl.Pkg() != p.Types && !strings.HasPrefix(cl.Pkg().Path(), ro) {
+								if sig, _ := cl.Type().(*types.Signature); sig != nil && sig.Recv() == nil && cl.Name() == fd.Name.Name && !seen[cl.Pkg()] {
+									seen[cl.Pkg()] = true
+									lifts[cl.Pkg()]++
+								}
+							}
+						}
+						return true
+					})
+				}
+				for lib, cnt := range lifts {
+					if cnt < 1 {
+						continue
+					}
+					for _, fd := range fds {
+						if !fd.Name.IsExported() {
+							continue
+						}
+						hom, ok := lib.Scope().Lookup(fd.Name.Name).(*types.Func)
+						if !ok || !hom.Exported() {
+							continue
+						}
+						n++
+						key := fmt.Sprintf("%s.%s/calls-%s.%s", model.ShortPkg(p.PkgPath), fd.Name.Name, lib.Name(), hom.Name())
+						// a call of the homonym, or the homonym handed on as a function value (ro.Map(strconv.Itoa))
+						var refs func(q *packages.Package, root ast.Node, depth int) bool
+						refs = func(q *packages.Package, root ast.Node, depth int) bool {
+							found := false
+							ast.Inspect(root, func(x ast.Node) bool {
+								if found {
+									return false
+								}
+								switch y := x.(type) {
+								case *ast.Ident:
+									if q.TypesInfo.Uses[y] == types.Object(hom) {
+										found = true
+									}
+								case *ast.CallExpr:
+									if depth > 0 {
+										for _, b := range calleeBodies(m, q, y) {
+											if refs(b.Pkg, b.Body, depth-1) {
+												found = true
+											}
+										}
+									}
+								}
+								return !found
+							})
+							return found
+						}
+						if refs(p, fd.Body, 3) {
+							c.OK(key, fd.Pos(), "reaches a call of the function it is named after")
+						} else {
+							c.Violation(key, fd.Pos(), "%s is named after %s.%s (the package its siblings lift under their own names) but never calls it: what it emits is not what that function returns", fd.Name.Name, lib.Name(), hom.Name())
+						}
+					}
+				}
+			}
+			c.Inc("homonym_functions", n)
+		},
+	}
 }
